@@ -4,3 +4,4 @@ import Basyx.Lemmas.Lex.Int
 import Basyx.Lemmas.Lex.DateTime
 import Basyx.Lemmas.Lex.Binary
 import Basyx.Lemmas.Lex.Duration
+import Basyx.Lemmas.Lex.Decimal
